@@ -58,7 +58,9 @@ type Open3 = (String, i32, String);
 
 fn rust_reader_open(path: &Path) -> Open3 {
     let c = std::ffi::CString::new(path.to_string_lossy().as_bytes()).unwrap();
-    match ShmReader::new(&c) {
+    let r = std::panic::catch_unwind(|| ShmReader::new(&c));
+    let Ok(r) = r else { return ("Panic".into(), 0, "ShmReader::new panicked".into()) };
+    match r {
         Ok(_) => ("Ok".into(), 0, String::new()),
         Err(clock_bound_shm::ShmError::SyscallError(e, d)) => ("Syscall".into(), e.0, d.to_string_lossy().to_string()),
         Err(clock_bound_shm::ShmError::SegmentNotInitialized) => ("SegmentNotInitialized".into(), 0, String::new()),
@@ -67,7 +69,10 @@ fn rust_reader_open(path: &Path) -> Open3 {
     }
 }
 fn rust_client_open(path: &Path) -> Open3 {
-    match ClockBoundClient::new_with_path(path.to_str().unwrap()) {
+    let p = path.to_str().unwrap().to_string();
+    let r = std::panic::catch_unwind(move || ClockBoundClient::new_with_path(&p));
+    let Ok(r) = r else { return ("Panic".into(), 0, "ClockBoundClient::new_with_path panicked".into()) };
+    match r {
         Ok(_) => ("Ok".into(), 0, String::new()),
         Err(e) => (
             match e.kind {
@@ -100,6 +105,7 @@ fn normalise(o: &Open3) -> String {
         ("SegmentMalformed", _, _) => "Malformed".into(),
         ("Syscall", 2, "open") => "ENOENT".into(),
         ("Syscall", 21, "read SHM segment") => "EISDIR".into(),
+        ("Syscall", 12, "mmap SHM segment") => "ENOMEM".into(),
         (k, e, d) => format!("{k}:{e}:{d}"),
     }
 }
@@ -179,9 +185,16 @@ fn open_cmd(args: &[String]) -> Value {
     let progress = arg(args, "--progress");
     let cdriver = arg(args, "--cdriver");
     let mut rng = StdRng::seed_from_u64(seed);
-    let files = concrete_files(&mut rng, n);
+    let mut files = concrete_files(&mut rng, n);
+    // --rlimit: address space limited to 1 GiB, only the files declaring a huge segment: mmap itself fails
+    let rlimit = args.iter().any(|a| a == "--rlimit");
+    if rlimit {
+        files.retain(|(_, kind, b)| kind == "file" && b.len() >= 12 && u32::from_ne_bytes(b[8..12].try_into().unwrap()) >= 0x8000_0000);
+        let lim = libc::rlimit { rlim_cur: 1 << 30, rlim_max: 1 << 30 };
+        unsafe { libc::setrlimit(libc::RLIMIT_AS, &lim) };
+    }
     let path = scratch_path("open");
-    let mut cd = cdriver.as_ref().map(|p| CDriver::spawn(p));
+    let mut cd = if rlimit { None } else { cdriver.as_ref().map(|p| CDriver::spawn(p)) };
     let mut f = std::io::BufWriter::new(std::fs::File::create(&out).unwrap());
     let mut disagree = vec![];
     let mut c_died = vec![];
@@ -214,7 +227,7 @@ fn open_cmd(args: &[String]) -> Value {
         let got = normalise(&a);
         *outcomes.entry(got.clone()).or_insert(0) += 1;
         let line = json!({"id": i, "desc": desc, "kind": kind, "len": fs.len, "mok": fs.magic_ok, "size": (fs.size as u64).min(1_000_000),
-                          "ver": fs.ver, "gen": fs.gen, "got": got});
+                          "ver": fs.ver, "gen": fs.gen, "got": got, "mmapfail": rlimit});
         writeln!(f, "{line}").unwrap();
     }
     f.flush().unwrap();
